@@ -1,1 +1,1 @@
-// hooks for src/session.rs
+// hooks for src/session.rs (none needed yet)
